@@ -40,6 +40,7 @@ def env_offline():
     e["CARGO_NET_OFFLINE"] = "true"
     e["CARGO_TARGET_DIR"] = TARGET
     e["WOODPILE_REPO"] = REPO
+    e.setdefault("WP_NFS_ROOT", os.path.join(WORK, "nfs-scratch"))  # scratch files of the nfs family live under /verif/work
     return e
 
 
